@@ -28,6 +28,7 @@ type Exec struct {
 	nPanicObl   int
 	nonNil      map[string]bool // reference terms known to be non-zero on every path
 	curFrame    *frame
+	loopSpecs   map[int]*LoopSpec   // plug-in supplied loop contracts of the top function
 	over        map[string]stdModel // per-run model overrides (mode A abstractions)
 	opaque      map[string]bool     // callees never inlined: result havocked, no write to existing memory
 }
@@ -367,6 +368,9 @@ func (x *Exec) findLoops(fr *frame, order []*ssa.BasicBlock, back map[edge]bool)
 		if fr.c != nil && fr.top {
 			li.spec = fr.c.Loops[li.ord]
 		}
+		if fr.top && x.loopSpecs != nil && x.loopSpecs[li.ord] != nil {
+			li.spec = x.loopSpecs[li.ord]
+		}
 		fr.loops[h] = li
 	}
 }
@@ -437,6 +441,9 @@ func (x *Exec) loopHead(fr *frame, li *loopInfo, b *ssa.BasicBlock, phis []*ssa.
 			t := x.evalBool(env, inv.Expr)
 			x.vc.oblige(fmt.Sprintf("%s#inv-init:%s.%d", x.eng.fnKey(fr.fn), x.loopName(fr, li), i+1), "inv-init", r, t, x.eng.pos(b.Instrs[0].Pos()))
 		}
+		for i, f := range li.spec.InvFns {
+			x.vc.oblige(fmt.Sprintf("%s#inv-init:%s.f%d", x.eng.fnKey(fr.fn), x.loopName(fr, li), i+1), "inv-init", r, f(env, phis), x.eng.pos(b.Instrs[0].Pos()))
+		}
 	}
 	// 2. havoc loop-carried state
 	li.phiNew = map[*ssa.Phi]Val{}
@@ -458,6 +465,9 @@ func (x *Exec) loopHead(fr *frame, li *loopInfo, b *ssa.BasicBlock, phis []*ssa.
 		env := x.specEnv(fr, cur, b, 0)
 		for _, inv := range li.spec.Invariants {
 			S.fact(r, x.evalBool(env, inv.Expr))
+		}
+		for _, f := range li.spec.InvFns {
+			S.fact(r, f(env, phis))
 		}
 	}
 	return r
@@ -492,11 +502,14 @@ func (x *Exec) havocLoopState(fr *frame, li *loopInfo, cur *State, r string) {
 		// frame: objects that existed before the loop and are not named in
 		// `loop k modifies` keep their contents
 		keep := sx("<", "r", li.entrySt.Alloc)
-		if li.spec != nil && len(li.spec.Modifies) > 0 && fr.top {
+		if li.spec != nil && len(li.spec.Modifies)+len(li.spec.ModFns) > 0 && fr.top {
 			env := x.specEnv(fr, &li.entrySt, li.header, 0)
 			var mods []string
 			for _, m := range li.spec.Modifies {
 				mods = append(mods, x.evalLoc(env, m.Expr))
+			}
+			for _, f := range li.spec.ModFns {
+				mods = append(mods, f(env))
 			}
 			keep = and(keep, not(or(mods...)))
 			x.havocMem(cur, keep)
@@ -569,6 +582,17 @@ func (x *Exec) loopStep(fr *frame, li *loopInfo, latch, head *ssa.BasicBlock) {
 	for i, inv := range li.spec.Invariants {
 		t := x.evalBool(env, inv.Expr)
 		x.vc.oblige(fmt.Sprintf("%s#inv-step:%s.%d@b%d", x.eng.fnKey(fr.fn), x.loopName(fr, li), i+1, latch.Index), "inv-step", r, t, x.eng.pos(head.Instrs[0].Pos()))
+	}
+	var hphis []*ssa.Phi
+	for _, ins := range head.Instrs {
+		p, ok := ins.(*ssa.Phi)
+		if !ok {
+			break
+		}
+		hphis = append(hphis, p)
+	}
+	for i, f := range li.spec.InvFns {
+		x.vc.oblige(fmt.Sprintf("%s#inv-step:%s.f%d@b%d", x.eng.fnKey(fr.fn), x.loopName(fr, li), i+1, latch.Index), "inv-step", r, f(env, hphis), x.eng.pos(head.Instrs[0].Pos()))
 	}
 	for p, v := range saved {
 		fr.vals[p] = v
